@@ -260,10 +260,19 @@ func (w *EvalRuleCondition) Do(ctx *Context, loc *Location) {
 			// A rule's actions can run concurrently, and action
 			// execution writes to its bindings (see
 			// maybeCopyEvent), so each execution gets its own
-			// map.
+			// map - and its own copies of the bound values: a
+			// script that writes into an object it got as a
+			// variable writes into the Go map behind it, and two
+			// executions doing that to one map at the same time
+			// end the process.
 			own := make(Bindings, len(bs))
 			for k, v := range bs {
-				own[k] = v
+				if k == "?event" && !SystemParameters.CopyEvents {
+					// (Asked for: see maybeCopyEvent.)
+					own[k] = v
+					continue
+				}
+				own[k] = Copy(v)
 			}
 			child := &ExecRuleAction{
 				Bindings: own,
